@@ -3,6 +3,8 @@
 Simulated dimension: a re-entrancy schedule. The scenario decides which system, at which queue
 position and timestep, mutates the list the scheduler is walking; the recorded per-timestep
 history is checked against conditions (a)-(f) of DESIGN.md section 5/C05."""
+import copy
+
 from ECAgent.Core import System
 
 from .common import SID, Model, Rec, RefSched, SystemNotFoundError, gen_flavour, gen_prio, gen_window, rec_class, spec_defaults
@@ -21,7 +23,7 @@ COMPONENTS = {"real": ["ECAgent.Core.SystemManager (add_system, remove_system, e
                        "ECAgent.Core.System.clean_up"],
               "stub": ["System.execute bodies are harness recording systems driven by the scenario script"]}
 PROBES = ["actor_first", "actor_middle", "actor_last", "target_before", "target_self", "target_after",
-          "new_higher", "new_equal", "new_lower", "two_mutations_one_step", "hot_swap_same_id", "other_model_stepped_mid_timestep", "systems_with_value_equality", "falsy_systems", "removed_via_targets_clean_up", "reprioritised_same_object", "systems_returning_values_from_execute", "switched_off_on_off_in_one_turn", "str_subclass_ids", "multi_step_request",
+          "new_higher", "new_equal", "new_lower", "two_mutations_one_step", "hot_swap_same_id", "other_model_stepped_mid_timestep", "systems_with_value_equality", "falsy_systems", "removed_via_targets_clean_up", "reprioritised_same_object", "systems_returning_values_from_execute", "switched_off_on_off_in_one_turn", "str_subclass_ids", "multi_step_request", "new_system_cloned_from_a_registered_one",
           "systems_that_are_bundled_collectors"]
 SHRINK_LISTS = ["scripts", "systems"]
 SHRINK_SKIP = ("end",)
@@ -56,7 +58,7 @@ def generate(rng, tier):
                 spec = {"id": f"n{fresh}", "prio": p}
                 spec.update(gen_window(rng, steps, always=0.85))
                 fresh += 1
-                actions.append({"op": "add", "sys": spec})
+                actions.append({"op": "add", "sys": spec, "clone_of": rng.choice(known) if rng.random() < 0.2 else None})
                 known.append(spec["id"])
                 prio_of[spec["id"]] = p
             elif r < 0.93:
@@ -185,7 +187,21 @@ class World:
             spec = spec_defaults(act["sys"])
             if ref.has(spec["id"]) or spec["id"] in self.objs:
                 return  # ids of new systems are fresh by construction; a shrunk scenario may repeat one
-            o = self.mk(spec)
+            donor = self.objs.get(act.get("clone_of")) if ref.has(act.get("clone_of") or "") else None
+            if donor is not None and not self.strsub:
+                # the new system is a shallow copy of a REGISTERED one, given its own id, priority and window
+                o = copy.copy(donor)
+                o.id, o.priority = spec["id"], spec["prio"]
+                o.start, o.end, o.frequency = spec["start"], spec["end"], spec["freq"]
+                self.gen += 1
+                o.uid = f"{spec['id']}#{self.gen}"
+                self.spec_of[o.uid] = spec
+                self.objs[spec["id"]] = o
+                if "execute" in getattr(o, "__dict__", {}):
+                    o.execute = lambda o=o: o.world.on_execute(o)
+                ctx.probe("new_system_cloned_from_a_registered_one")
+            else:
+                o = self.mk(spec)
             st, v = ctx.call(sm.add_system, o)
             ctx.event("add", spec["id"], spec["prio"], st)
             if st != "ok":
